@@ -116,6 +116,8 @@ func layoutHasSeconds(l string) bool { return l == m.LayoutDatetime || l == m.La
 var rejectExprs = []string{
 	`(version "10000")`, `(version "1.10000.2")`, `(version "1.2.10000")`, `(to_version "1.x.3")`, `(t_version "a")`, `(version "")`, `(version "1..2")`,
 	`(version ".1")`, `(version "1.2.3" 0)`, `(version "1.2.3" 5)`, `(version "1.2.3" -1)`, `(version "1.2.3" "3")`, `(version 123)`, `(version)`, `(version "1" 2 3)`,
+	`(version "9223372036854775808")`, `(version "1.18446744073709551617.3")`, `(version "18446744073709551616")`, `(version "1.2.18446744073709551615")`,
+	`(version "9223372036854785807.1")`, `(version "00000000000000000000010000")`, `(version "340282366920938463463374607431768211457.1")`,
 	`(version "1.2.3.10000" 4)`, `(version "1 .2")`, `(version "1.2e3")`, `(version "99999999999999999999")`,
 	`(date "2021-13-01")`, `(date "2021-02-30")`, `(date "2023-02-29")`, `(date "2021-00-10")`, `(date "2021-01-00")`, `(date "2021-01-32")`, `(date "21-01-01")`,
 	`(date "2021/01/01")`, `(date "garbage")`, `(date "")`, `(date "2021-01-01 10:00:00")`, `(date "2021-01-01x")`, `(date " 2021-01-01")`,
@@ -200,6 +202,20 @@ func genC19(t *rapid.T) C19Case {
 		c.A, c.B = m.FormatCivil(a, layout), m.FormatCivil(b, layout)
 		return c
 	default:
+		if rapid.Bool().Draw(t, "hugecomp") {
+			// a component of 5..40 digits whose value is >= 10000, at a drawn position within the valid length
+			nd := rapid.IntRange(5, 40).Draw(t, "ndigits")
+			d := make([]byte, nd)
+			for i := range d {
+				d[i] = byte('0' + rapid.IntRange(0, 9).Draw(t, "digit"))
+			}
+			if d[0] == '0' {
+				d[0] = '1'
+			}
+			parts := []string{"1", "2", "3"}
+			parts[rapid.IntRange(0, 2).Draw(t, "hugeat")] = string(d)
+			return C19Case{Kind: "reject", Expr: `(` + rapid.SampledFrom(versionOps).Draw(t, "op") + ` "` + strings.Join(parts, ".") + `")`}
+		}
 		return C19Case{Kind: "reject", Expr: rapid.SampledFrom(rejectExprs).Draw(t, "reject")}
 	}
 }
